@@ -212,5 +212,6 @@ class SimNet:
                 self.stats["net-http-%d" % status] = self.stats.get("net-http-%d" % status, 0) + 1
                 raise urllib.error.HTTPError(url, status, "simulated", msg, io.BytesIO(body))
             self.stats["net-200"] = self.stats.get("net-200", 0) + 1
-            return urllib.response.addinfourl(io.BytesIO(body), msg, url, status)
+            # body: bytes, or a callable that opens a fresh stream per request (a body that fails or ends midway)
+            return urllib.response.addinfourl(body() if callable(body) else io.BytesIO(body), msg, url, status)
         raise urllib.error.URLError("simulated network: redirect loop")
